@@ -18,14 +18,14 @@ import (
 	"verif/space"
 )
 
-// The space is finite by construction: elements come from the alphabet of the side, Grow
+// The space is finite by construction: elements come from the alphabet of the system, Grow
 // arguments from `grows`, and no operation creates a word beyond the one of the largest of these
 // numbers (Merge only copies words the other operand already has).
 type config struct {
 	idx    int
 	name   string
 	kind   sysKind
-	alpha  [2][]uint // members offered on side A / B, simplest first
+	alpha  []uint // members offered to Add / Remove / Contains / Clone+toggle, simplest first
 	grows  []uint
 	starts [][2]int // initial Grow argument per side (-1 = zero value)
 	ops    []space.Op
@@ -35,7 +35,7 @@ type config struct {
 var (
 	quickAlpha = []uint{0, 1, 63, 64, 65, 127, 128}
 	fullAlpha  = []uint{0, 1, 63, 64, 65, 127, 128, 129, 191, 192}
-	subAlpha   = []uint{0, 63, 64, 128, 192} // side B of the thorough 4-word systems
+	wideAlpha  = []uint{0, 63, 64, 127, 128, 129, 191, 192} // the thorough 4-word systems
 	grows3     = []uint{0, 63, 64, 127, 128}
 	grows4     = []uint{0, 63, 64, 127, 128, 191, 192}
 	// no constructor exists; differing initial capacities are produced with Grow so that
@@ -49,21 +49,23 @@ var (
 
 func configs(thorough bool) []*config {
 	cs := []*config{
-		{name: "setz.Bits", kind: kBits, alpha: [2][]uint{quickAlpha, quickAlpha}, grows: grows3, starts: starts2},
-		{name: "setz.Bitmap", kind: kBitmap, alpha: [2][]uint{quickAlpha, quickAlpha}, grows: grows3, starts: starts2},
-		{name: "dsz.Bits", kind: kDsz, alpha: [2][]uint{quickAlpha, nil}, grows: grows3, starts: starts1},
+		{name: "setz.Bits", kind: kBits, alpha: quickAlpha, grows: grows3, starts: starts2},
+		{name: "setz.Bitmap", kind: kBitmap, alpha: quickAlpha, grows: grows3, starts: starts2},
+		{name: "dsz.Bits", kind: kDsz, alpha: quickAlpha, grows: grows3, starts: starts1},
 	}
 	maxWords = 3
 	all := quickAlpha
 	if thorough {
-		// the full product over the 10-value alphabet has 1609^2 = 2.6 M states and 3.3e8
-		// transitions; side B is therefore restricted to a 7-value alphabet that still spans
-		// all four words and both ends of every word (both operation directions are offered,
-		// so either side can be the shorter / the poorer one)
-		cs[2] = &config{name: "dsz.Bits", kind: kDsz, alpha: [2][]uint{fullAlpha, nil}, grows: grows4, starts: starts1}
+		// The two-set product over all ten values (measured once on setz.Bits: 2 501 701 states,
+		// 252 671 801 transitions, depth 15, fix-point, no violation) costs about 100 CPU-minutes
+		// per system, so the 4-word systems use eight values: the three values the thorough tier
+		// adds (129, 191, 192) and both sides of every word boundary. 1 and 65 are covered by the
+		// 3-word systems above, the single-set dsz.Bits runs over all ten. (Restricting only one
+		// side does not help: B.Merge(A) carries every member of A over to B.)
+		cs[2] = &config{name: "dsz.Bits", kind: kDsz, alpha: fullAlpha, grows: grows4, starts: starts1}
 		cs = append(cs,
-			&config{name: "setz.Bits/4words-A10xB5", kind: kBits, alpha: [2][]uint{fullAlpha, subAlpha}, grows: grows4, starts: starts2, big: true},
-			&config{name: "setz.Bitmap/4words-A10xB5", kind: kBitmap, alpha: [2][]uint{fullAlpha, subAlpha}, grows: grows4, starts: starts2, big: true})
+			&config{name: "setz.Bits/4words", kind: kBits, alpha: wideAlpha, grows: grows4, starts: starts2, big: true},
+			&config{name: "setz.Bitmap/4words", kind: kBitmap, alpha: wideAlpha, grows: grows4, starts: starts2, big: true})
 		maxWords = 4
 		all = fullAlpha
 	}
@@ -205,11 +207,11 @@ func buildOps(c *config) []space.Op {
 		sides = sides[:1]
 	}
 	var ops []space.Op
-	each := func(name string, perSide bool) {
-		for i, s := range sides {
+	each := func(name string, members bool) {
+		for _, s := range sides {
 			args := c.grows
-			if perSide {
-				args = c.alpha[i]
+			if members {
+				args = c.alpha
 			}
 			for _, v := range args {
 				ops = append(ops, space.Op{Name: s + "." + name, Args: []int{int(v)}})
@@ -600,7 +602,7 @@ func main() {
 		}
 		walls[c.name] = float64(time.Since(t0).Milliseconds()) / 1000
 		nops[c.name] = len(c.ops)
-		scope[c.name] = map[string]any{"members_A": c.alpha[0], "members_B": c.alpha[1], "grow_arguments": c.grows, "start_grow_arguments_A/B": c.starts}
+		scope[c.name] = map[string]any{"members": c.alpha, "grow_arguments": c.grows, "start_grow_arguments_A/B": c.starts}
 		r.Nontrivial(int64(res.States))
 		results = append(results, res)
 		if r.Thorough() && c.idx == 0 && res.CapHit == "" {
